@@ -1,6 +1,6 @@
 use crate::matrices::views::{DataLayout, MatrixMut, MatrixRef, NoInteriorMutability};
 use crate::matrices::{Column, Row};
-use crate::tensors::views::reverse_indexes;
+use crate::tensors::views::{reverse_indexes, try_reverse_indexes};
 
 use std::marker::PhantomData;
 
@@ -125,11 +125,11 @@ where
         if self.source.view_rows() == 0 || self.source.view_columns() == 0 {
             return None;
         }
-        let [row, column] = reverse_indexes(
+        let [row, column] = try_reverse_indexes(
             &[row, column],
             &[("row", self.source.view_rows()), ("column", self.source.view_columns())],
             &[self.rows, self.columns]
-        );
+        )?;
         self.source.try_get_reference(row, column)
     }
 
@@ -185,11 +185,11 @@ where
         if self.source.view_rows() == 0 || self.source.view_columns() == 0 {
             return None;
         }
-        let [row, column] = reverse_indexes(
+        let [row, column] = try_reverse_indexes(
             &[row, column],
             &[("row", self.source.view_rows()), ("column", self.source.view_columns())],
             &[self.rows, self.columns]
-        );
+        )?;
         self.source.try_get_reference_mut(row, column)
     }
 
